@@ -106,6 +106,8 @@ def run(ctx):
             for prob in res["unrecoverable"]:
                 sig = "zero_prior_generations" if ("refuses with 32" in prob and "[zero-prior-generation history" in prob) else None
                 fails.append({"what": prob, "replay": {"world": w, "trace": res["trace"][:60]}, "signature": sig})
+            for prob in res.get("replay_errors", [])[:3]:
+                corr.append({"what": f"write trace of create: {prob}", "replay": {"world": w, "trace": res["trace"][:40]}})
             if len(samples) < 2:
                 samples.append({"world": w["c15"], "final": w["final"], "ops": res["ops"], "crash_states": res["states"], "trace_head": res["trace"][:8]})
             # the other way a create is killed: an exception that unwinds through its handlers (Ctrl-C, a failing
